@@ -607,6 +607,73 @@ func arpReplyFrame(srcMAC, srcIP, dstMAC, dstIP []byte, op uint16) []byte {
 	return out
 }
 
+// oddARPFrame hand-builds an Ethernet frame carrying an ARP packet that is (mostly) NOT a well-formed
+// Ethernet/IPv4 ARP packet: address sizes other than 6/4 with types that agree or disagree with them,
+// truncations, trailers.  wellFormed tells whether the packet still is a complete ARP packet with 6-byte
+// hardware and 4-byte protocol addresses (then it is reported like any other; only a trailer was added).
+func oddARPFrame(r *hlib.SplitMix64, mac, ip, myMAC, myIP []byte, op uint16) (frame []byte, desc string, wellFormed bool) {
+	htype, ptype := uint16(1), uint16(0x0800)
+	hlen, plen := 6, 4
+	kind := r.Intn(7)
+	switch kind {
+	case 0: // sizes wrong, types claim Ethernet/IPv4
+		hlen = []int{0, 1, 3, 4, 5, 7, 8, 16, 20}[r.Intn(9)]
+	case 1:
+		plen = []int{0, 1, 3, 5, 6, 8, 16}[r.Intn(7)]
+	case 2:
+		hlen, plen = []int{4, 8, 20}[r.Intn(3)], []int{6, 16}[r.Intn(2)]
+	case 3: // sizes and types agree with another link/protocol
+		switch r.Intn(3) {
+		case 0:
+			htype, hlen = 32, 20 // InfiniBand
+		case 1:
+			ptype, plen = 0x86dd, 16
+		default:
+			htype, hlen, ptype, plen = 27, 8, 0x86dd, 16 // EUI-64
+		}
+	case 4, 5, 6: // well-formed sizes; truncated (4), long trailer (5), cut inside the Ethernet header (6)
+	}
+	sha, spa := make([]byte, hlen), make([]byte, plen)
+	copy(sha, mac)
+	copy(spa, ip)
+	if hlen > 6 {
+		copy(sha[6:], r.Bytes(hlen-6))
+	}
+	if plen > 4 {
+		copy(spa[4:], r.Bytes(plen-4))
+	}
+	tha, tpa := make([]byte, hlen), make([]byte, plen)
+	copy(tha, myMAC)
+	copy(tpa, myIP)
+	f := append([]byte{}, myMAC...)
+	f = append(f, mac...)
+	f = append(f, 0x08, 0x06, byte(htype>>8), byte(htype), byte(ptype>>8), byte(ptype), byte(hlen), byte(plen), byte(op>>8), byte(op))
+	f = append(f, sha...)
+	f = append(f, spa...)
+	f = append(f, tha...)
+	f = append(f, tpa...)
+	desc = fmt.Sprintf("htype=%d ptype=%#04x hlen=%d plen=%d", htype, ptype, hlen, plen)
+	switch kind {
+	case 4:
+		cut := 14 + r.Intn(len(f)-14)
+		f = f[:cut]
+		desc += fmt.Sprintf(" truncated to %d bytes", cut)
+	case 5:
+		f = append(f, r.Bytes(1+r.Intn(40))...)
+		desc += " with trailer"
+		wellFormed = true
+	case 6:
+		cut := r.Intn(14)
+		f = f[:cut]
+		desc += fmt.Sprintf(" truncated to %d bytes", cut)
+	default:
+		if r.Intn(3) == 0 && len(f) < 60 {
+			f = append(f, make([]byte, 60-len(f))...)
+		}
+	}
+	return f, desc, wellFormed
+}
+
 func chainCase(r *hlib.SplitMix64, gen string) row {
 	rw := row{T: "chain", Gen: gen, Class: "chain"}
 	ctx, cancel := context.WithCancel(context.Background())
@@ -623,6 +690,11 @@ func chainCase(r *hlib.SplitMix64, gen string) row {
 	myMAC, myIP := []byte{2, 0, 0, 0, 0, 1}, []byte{192, 168, 0, 254}
 	type bind struct{ ip, mac []byte }
 	var binds []bind
+	odd := r.Intn(5) < 2 // two chains in five also see frames that are NOT well-formed Ethernet/IPv4 ARP packets
+	if odd {
+		rw.Class = "chain+odd-frames"
+	}
+	var oddDesc []string
 	for i := 0; i < nrep; i++ {
 		ip := pool[r.Intn(npool)]
 		mac := r.Bytes(6)
@@ -632,6 +704,16 @@ func chainCase(r *hlib.SplitMix64, gen string) row {
 		op := uint16(layers.ARPReply)
 		if r.Intn(6) == 0 {
 			op = layers.ARPRequest // the ARP scan reports requests it overhears as well
+		}
+		if odd && r.Intn(2) == 0 {
+			frame, desc, wellFormed := oddARPFrame(r, mac, ip, myMAC, myIP, op)
+			_ = sm.ProcessPacketData(frame, nil) // an error is as good as silence here
+			if wellFormed {
+				binds = append(binds, bind{ip, mac})
+			} else {
+				oddDesc = append(oddDesc, desc)
+			}
+			continue
 		}
 		frame := arpReplyFrame(mac, ip, myMAC, myIP, op)
 		if r.Intn(3) == 0 { // Ethernet padding to the minimum frame size
@@ -643,23 +725,61 @@ func chainCase(r *hlib.SplitMix64, gen string) row {
 		}
 		binds = append(binds, bind{ip, mac})
 	}
+	// a sentinel reply closes the sequence: the result channel is a FIFO, so everything reported for the
+	// frames above comes out before it
+	sentMAC, sentIP := []byte{2, 0xfe, 0xfe, 0xfe, 0xfe, 0xfe}, []byte{192, 168, 255, 254}
+	if err := sm.ProcessPacketData(arpReplyFrame(sentMAC, sentIP, myMAC, myIP, layers.ARPReply), nil); err != nil {
+		rw.Spec = "the ARP processor rejects a well-formed ARP frame: " + err.Error()
+		return rw
+	}
 	var got []scan.Result
-	for i := 0; i < nrep; i++ {
+	for {
+		var x scan.Result
 		select {
-		case x := <-results.Chan():
-			got = append(got, x)
+		case x = <-results.Chan():
 		case <-time.After(5 * time.Second):
-			rw.Spec = fmt.Sprintf("the ARP processor reported %d of %d frames", len(got), nrep)
+			rw.Spec = fmt.Sprintf("the ARP processor reported %d results and then nothing for a well-formed reply", len(got))
 			return rw
+		}
+		if a, ok := x.(*arp.ScanResult); ok && a.IP == net.IP(sentIP).String() && a.MAC == net.HardwareAddr(sentMAC).String() {
+			break
+		}
+		got = append(got, x)
+		if len(got) > nrep+4 {
+			break
 		}
 	}
-	for i, x := range got {
-		a, ok := x.(*arp.ScanResult)
-		if !ok {
-			rw.Spec = "the ARP scan produced a result of another type"
-			return rw
+	for i, b := range binds {
+		vendor := ""
+		if i < len(got) {
+			if a, ok := got[i].(*arp.ScanResult); ok {
+				vendor = a.Vendor
+			}
 		}
-		rw.Replies = append(rw.Replies, reply{IP: hx(binds[i].ip), MAC: hx(binds[i].mac), Vendor: hx([]byte(a.Vendor))})
+		rw.Replies = append(rw.Replies, reply{IP: hx(b.ip), MAC: hx(b.mac), Vendor: hx([]byte(vendor))})
+	}
+	// the property on the implementation alone: exactly the well-formed frames are reported, each with its own
+	// sender address and MAC, in order; anything else prints nothing
+	for i := 0; i < len(got) || i < len(binds); i++ {
+		var line string
+		if i < len(got) {
+			enc, _ := got[i].MarshalJSON()
+			line = string(enc)
+		}
+		switch {
+		case i >= len(got):
+			rw.Spec = fmt.Sprintf("the well-formed ARP frame of %s (%s) is not reported", net.IP(binds[i].ip), net.HardwareAddr(binds[i].mac))
+		case i >= len(binds):
+			rw.Spec = fmt.Sprintf("the ARP scan prints %s although only %d well-formed Ethernet/IPv4 ARP frames were seen; odd frames in the sequence: %s", line, len(binds), strings.Join(oddDesc, "; "))
+		default:
+			a, ok := got[i].(*arp.ScanResult)
+			if !ok || a.IP != net.IP(binds[i].ip).String() || a.MAC != net.HardwareAddr(binds[i].mac).String() {
+				rw.Spec = fmt.Sprintf("the ARP scan prints %s where the well-formed frame of %s (%s) is due; odd frames in the sequence: %s", line, net.IP(binds[i].ip), net.HardwareAddr(binds[i].mac), strings.Join(oddDesc, "; "))
+			} else {
+				continue
+			}
+		}
+		break
 	}
 	// 2. JSON logger
 	w := &bufWriter{}
@@ -680,7 +800,8 @@ func chainCase(r *hlib.SplitMix64, gen string) row {
 	// 3. the IP-level scan loads it
 	cache := arp.NewCache()
 	if err := arp.FillCache(cache, bytes.NewReader(logged)); err != nil {
-		rw.Spec = "the output of the ARP scan is rejected by the ARP-cache loader: " + err.Error()
+		rw.Spec = "the output of the ARP scan is rejected by the ARP-cache loader: " + err.Error() + "; output: " + strings.TrimSpace(string(logged)) +
+			"; odd frames in the sequence: " + strings.Join(oddDesc, "; ")
 		rw.ErrKind = errKind(err)
 		return rw
 	}
